@@ -608,6 +608,9 @@ MODEL_NOTES = {"append_after_close", "hclose", "bufs_closed", "map_del", "act_de
                "io_loop_died", "select_ebadf"}
 
 
+UNCONSTRUCTED = set()   # fds accepted whose channel was never constructed (listener world, per run)
+
+
 def notes_to_model(notes, tid, items):
     """the environment's answers and the model labels carried by the notes of one block, in order"""
     answers, labels = [], []
@@ -662,7 +665,8 @@ def notes_to_model(notes, tid, items):
         elif nk == "act_del":
             labels.append("actdel:%s:%s" % (tid, FDS[nd]))
         elif nk == "close":
-            labels.append("close:%s:%s" % (tid, FDS[nd]))
+            if nd not in UNCONSTRUCTED:
+                labels.append("close:%s:%s" % (tid, FDS[nd]))
         elif nk == "wire":
             labels.append("wire:%s:%d" % (FDS[nd[0]], nd[1]))
         elif nk == "send_continue" and tid != "io":
@@ -677,6 +681,7 @@ def notes_to_model(notes, tid, items):
 def tokens(world):
     """-> (tokens, expectations): expectations[i] = (labels, snapshot after the block)"""
     blocks = _blocks(world)
+    UNCONSTRUCTED.clear()
     serving = {}          # pool thread -> fd
     in_add = {}           # thread -> fd while inside server.add_task
     toks, exps = [], []
@@ -859,11 +864,11 @@ def compare(world, toks, exps, answers_line):
     return None
 
 
-def run_line(world, toks, nchan, wc_close=True):
+def run_line(world, toks, nchan, wc_close=True, init_guarded=False):
     adj = world.adj
-    return "run %d %d %d %d %d%d y %d %s" % (
+    return "run %d %d %d %d %d%d%d y %d %s" % (
         adj.channel_request_lookahead, adj.send_bytes, adj.outbuf_high_watermark, world.socks[7].sndbuf,
-        1 if world.use_poll else 0, 1 if wc_close else 0, nchan, " ".join(toks))
+        1 if world.use_poll else 0, 1 if wc_close else 0, 1 if init_guarded else 0, nchan, " ".join(toks))
 
 
 # ---------------------------------------------------------------------------------
@@ -1151,6 +1156,8 @@ class ListenerWorld(FaultWorld):
                                 groups.append(cur)
                                 cur = []
                         gi = iter(groups)
+                        UNCONSTRUCTED.clear()
+                        UNCONSTRUCTED.update(fd for fd in self.socks if fd not in self.channels)
                         answers, labels = notes_to_model(notes, "io", lambda: next(gi))
                         if not any(nk == "selected" for (_, nk, _) in notes) and self.io_error is None:
                             # poll(): `if [] == r == w == e: time.sleep(timeout); return` -- the model's empty select answer
@@ -1192,11 +1199,11 @@ class ListenerWorld(FaultWorld):
         return toks, exps
 
 
-def run_line_listener(world, toks, wc_close=True):
+def run_line_listener(world, toks, wc_close=True, init_guarded=False):
     adj = world.adj
-    return "run %d %d %d %d 0%d a 0 %s" % (
+    return "run %d %d %d %d 0%d%d a 0 %s" % (
         adj.channel_request_lookahead, adj.send_bytes, adj.outbuf_high_watermark, world.sndbuf,
-        1 if wc_close else 0, " ".join(toks))
+        1 if wc_close else 0, 1 if init_guarded else 0, " ".join(toks))
 
 
 def compare_listener(toks, exps, answers_line):
@@ -1417,6 +1424,32 @@ def shape_signature(src_dir):
 
 def shape_digest(sig):
     return hashlib.sha1(repr(sorted(sig.items())).encode()).hexdigest()
+
+
+def detect_init_guarded(src_dir):
+    """Is `self.channel_class(...)` in BaseWSGIServer.handle_accept inside a try whose handlers catch OSError
+    (the model's cfg.init_guarded)?"""
+    tree = ast.parse(open(os.path.join(src_dir, "waitress", "server.py")).read())
+    fn = _find(tree, "BaseWSGIServer", "handle_accept")
+    if fn is None:
+        raise ValueError("BaseWSGIServer.handle_accept not found")
+
+    def is_cc(n):
+        return isinstance(n, ast.Call) and isinstance(n.func, ast.Attribute) and n.func.attr == "channel_class"
+    calls = [n for n in ast.walk(fn) if is_cc(n)]
+    if len(calls) != 1:
+        raise ValueError("expected exactly one channel_class(...) call in handle_accept")
+
+    def catches_oserror(h):
+        if h.type is None:
+            return True
+        names = [n.id for n in ast.walk(h.type) if isinstance(n, ast.Name)]
+        return any(x in ("OSError", "Exception", "BaseException") for x in names)
+    for t in ast.walk(fn):
+        if isinstance(t, ast.Try) and any(is_cc(n) for st in t.body for n in ast.walk(st)):
+            if any(catches_oserror(h) for h in t.handlers):
+                return True
+    return False
 
 
 def detect_wc_close(src_dir):
@@ -2036,6 +2069,10 @@ def shape_audit(src_dir):
                      .replace("call:send_continue(do_close=True)", "call:send_continue()") for t in toks]
         if key.endswith("HTTPChannel.send_continue"):
             return [t.replace("call:_flush_some(do_close=do_close)", "call:_flush_some()") for t in toks]
+        if key.endswith("BaseWSGIServer.handle_accept"):
+            # where channel_class(...) stands relative to the try is read by detect_init_guarded; the audit
+            # compares the multiset of statements (plus an optional close() of the accepted socket in the handler)
+            return sorted(t for t in toks if t not in ("call:close()",))
         return toks
     sig = shape_signature(src_dir)
     diff = []
@@ -2053,6 +2090,7 @@ GET2 = b"GET /c HTTP/1.1\r\nHost: x\r\n\r\n"
 GETCLOSE = b"GET /a HTTP/1.1\r\nHost: x\r\nConnection: close\r\n\r\n"
 POSTH = b"POST /b HTTP/1.1\r\nHost: x\r\nContent-Length: 5\r\nExpect: 100-continue\r\n\r\n"
 POSTBODY = b"hello"
+POST0 = b"POST /e HTTP/1.1\r\nHost: x\r\nContent-Length: 0\r\nExpect: 100-continue\r\n\r\n"
 BAD = b"GARBAGE\r\n\r\n"
 ADJ0 = {"outbuf_high_watermark": 2000}
 
@@ -2063,9 +2101,13 @@ SCENARIOS = {
                                             ["wait_wire", 200], ["close"]]}},
     "expect-alone": {"scripts": {7: [["send", POSTH.hex()], ["wait_wire", 20], ["send", POSTBODY.hex()],
                                     ["wait_wire", 100], ["close"]]}},
+    "expect-empty-body": {"scripts": {7: [["send", (POST0 + GET).hex()], ["wait_wire", 200], ["close"]]}},
+    "get-expect-empty": {"scripts": {7: [["send", (GET + POST0).hex()], ["wait_wire", 200], ["close"]]}},
     "two-pipelined": {"scripts": {7: [["send", (GET + GET2).hex()], ["wait_wire", 150], ["close"]]}},
     "pending-output": {"scripts": {7: [["stall"], ["send", GET.hex()], ["resume"], ["wait_wire", 1000], ["close"]]},
                        "bodies": {"/a": [900, 900]}, "adj": {"outbuf_high_watermark": 1000}},
+    "backpressure": {"scripts": {7: [["send", GET.hex()], ["wait_wire", 2000], ["close"]]},
+                     "bodies": {"/a": [1200, 1200]}, "adj": {"outbuf_high_watermark": 1000}, "send_plans": {"7": [0, 0]}},
     "conn-close": {"scripts": {7: [["send", GETCLOSE.hex()], ["wait_wire", 60]]}},
     "bad-request": {"scripts": {7: [["send", BAD.hex()], ["wait_wire", 60]]}},
     "app-raises": {"scripts": {7: [["send", GET.hex()], ["wait_wire", 60], ["close"]]}, "raises": ["/a"]},
@@ -2102,6 +2144,8 @@ def make_world(case, schedule=(), policy=None, max_steps=4000):
     adj = dict(ADJ0)
     adj.update(sc.get("adj") or {})
     k = lambda d: {int(a): b for a, b in (d or {}).items()}
+    if not case.get("send_plans") and sc.get("send_plans"):
+        case = dict(case, send_plans=sc["send_plans"])
     w = FaultWorld(simple_app(bodies), {int(fd): _script(s) for fd, s in sc["scripts"].items()},
                    schedule=schedule, policy=policy, adj_kw=adj, n_workers=case.get("n_workers", 1),
                    send_plans={fd: _plan(p) for fd, p in k(case.get("send_plans")).items()},
@@ -2139,6 +2183,11 @@ def monitor(world, reference_wire=None):
             if not ch._bufs_closed:
                 problems.append(("closed_but_buffers_open", fd))
     fin = getattr(world, "final", None)
+    if fin is not None and world.verdict == "blocked":
+        # quiescent: a connection that has been given up (connected is False) has been torn down
+        for fd, ch in world.channels.items():
+            if not object.__getattribute__(ch, "connected") and (world.map.get(fd) is ch or not world.socks[fd].closed):
+                problems.append(("not_torn_down", fd))
     if fin is not None:
         if fin["workers_dead"]:
             problems.append(("worker_died", fin["workers_dead"]))
@@ -2179,7 +2228,8 @@ def placements(calls, fds=None):
 
 def apply_placements(case, pls):
     c = dict(case)
-    sp = {int(k): list(v) for k, v in (case.get("send_plans") or {}).items()}
+    sc0 = case["scenario"] if isinstance(case["scenario"], dict) else SCENARIOS[case["scenario"]]
+    sp = {int(k): list(v) for k, v in (case.get("send_plans") or sc0.get("send_plans") or {}).items()}
     rf = {int(k): dict(v) for k, v in (case.get("recv_faults") or {}).items()}
     for fd, what, k, e in pls:
         if what == "recv":
